@@ -93,7 +93,8 @@ def main():
             "enable": "go build -tags verif (the harness module ruxsim replaces github.com/gookit/rux with /repo)",
             "baseline_off_cmd": "cd /repo && GOFLAGS=-mod=mod GOPROXY=off GOSUMDB=off go test -vet=off -count=1 -timeout 25m ./...",
             "source_commits": repo_commits(),
-            "add_only": True,
+            "add_only": False,
+            "add_only_note": "All hook changes add lines except one: the declaration `ctxPool sync.Pool` in router.go became `ctxPool verifCtxPool` (and the then unused import of sync was dropped). verifCtxPool is a type alias of sync.Pool when the guard is off, so the shipped build is unchanged; with the guard on it is a wrapper through which every Get/Put of the context pool, at any call site, reaches the simulator. Call-site hooks (the first version) missed pool operations added or moved by a change under test.",
         },
         "engines": [{"name": "ruxsim", "path": "/verif/ruxsim", "serves_properties": sorted(CLAIMED),
                      "kind_free_text": "deterministic simulator for rux: seeded scheduler passing a baton between request goroutines, simulated ResponseWriter/pool/map-order seams, fault injection, structured shrinking, scenario-file replay"}],
